@@ -272,11 +272,19 @@ def generate(ch, profile):
         cfg["turn_refresh"] = {"side": ch.choice("cfg", ["A", "B"]), "nth": ch.choice("cfg", [3, 6, 10, 20, 40, 80]),
                                "dur": ch.choice("cfg", [0.005, 0.05, 0.3])}
     cfg["lifecycle"] = profile in ("c01", "c02") and ch.chance("cfg", 0.2)
+    if not fault_free and (cfg["lifecycle"] or profile in ("c13", "c06")) and ch.chance("cfg", 0.3):
+        # control chunks that arrive very late: the n-th .. (n+k-1)-th datagram of one class in one direction is kept back
+        # for seconds (a FORWARD-TSN, SACK or RE-CONFIG overtaken by everything sent after it, a close and a re-use included)
+        cfg["hold_ctl"] = {"dir": ch.choice("cfg", ["A", "B"]), "cls": ch.choice("cfg", ["FORWARD_TSN", "FORWARD_TSN", "SACK", "RECONFIG"]),
+                           "from": ch.choice("cfg", [1, 1, 2, 3, 5]), "count": ch.choice("cfg", [1, 2, 5, 1000]),
+                           "dur": ch.choice("cfg", [0.5, 3.0, 10.0, 30.0])}
     if profile == "c13" and ch.chance("cfg", 0.3):
         # a bufferedamountlow listener that sends more (up to three times per channel end)
         cfg["refill_on_low"] = ch.choice("cfg", [1, 500, 1200, 3000])
     # SCTP ports of the two ends (the default 5000/5000 in most runs)
     cfg["ports"] = ch.choice("cfg", [[5000, 5000], [5000, 5000], [5000, 5000], [5001, 5002], [1, 65535], [6000, 5000]])
+    if not fault_free and profile in ("c01", "c13") and ch.chance("wl", 0.1):
+        return cfg, abandoned_then_reused(ch, cfg, profile)
     nchan = ch.choice("wl", [1, 1, 2, 2, 3, 4, 5])
     chans = [gen_channel(ch, k, profile) for k in range(nchan)]
     ops = []
@@ -365,6 +373,49 @@ def generate(ch, profile):
     return cfg, ops
 
 
+def abandoned_then_reused(ch, cfg, profile):
+    """A family of runs steered towards one stretch of a stream id's life: an ordered partially reliable channel gives
+    up on messages (loss on the way), its FORWARD-TSNs travel slowly, the channel is closed and the id taken over by a
+    reliable channel while the receiver may still be waiting behind the gap; a reliable neighbour keeps SACKs flowing."""
+    s = ch.choice("wl", ["A", "B"])
+    o = "B" if s == "A" else "A"
+    cfg["lifecycle"] = True
+    cfg["hold_ctl"] = {"dir": s, "cls": "FORWARD_TSN", "from": ch.choice("wl", [1, 1, 2]), "count": ch.choice("wl", [5, 1000]),
+                       "dur": ch.choice("wl", [1.0, 3.0, 10.0])}
+    d = cfg["a2b" if s == "A" else "b2a"]
+    d["drop"] = max(d.get("drop", 0.0), ch.choice("wl", [0.05, 0.15, 0.3]))
+    if ch.chance("wl", 0.7):
+        # (what the new channel sends first does not arrive in sending order)
+        d["reorder"] = max(d.get("reorder", 0.0), ch.choice("wl", [0.2, 0.5]))
+        d["reorder_max"] = max(d.get("reorder_max", 0.0), ch.choice("wl", [0.02, 0.2, 1.0]))
+    base = {"ordered": True, "maxRetransmits": None, "maxPacketLifeTime": None, "negotiated": False, "id": None,
+            "label": "", "protocol": ""}
+    ops = [dict(base, tag="c0", side=s, op="create", t=0.0, **({"maxRetransmits": 0} if ch.chance("wl", 0.6) else
+                                                               {"maxPacketLifeTime": ch.choice("wl", [1, 50])})),
+           dict(base, tag="c1", side=ch.choice("wl", [s, o]), op="create", t=0.0)]
+    for j in range(ch.choice("wl", [6, 12, 24])):
+        # (the first one once the association is likely to be up: sends on a channel that is not open yet are skipped)
+        ops.append({"op": "send", "tag": "c0", "side": s, "kind": "str", "size": ch.choice("wl", [1, 100, 1201]),
+                    "t": ch.choice("wl", [0.0, 0.001, 0.02, 0.1]) if j else ch.choice("wl", [3.0, 6.0, 10.0])})
+        if ch.chance("wl", 0.6):
+            ops.append({"op": "burst", "tag": "c1", "side": s, "count": ch.choice("wl", [1, 2, 4]), "size": 100, "kind": "str",
+                        "t": ch.choice("wl", [0.0, 0.02, 0.1])})
+    ops.append({"op": "close", "tag": "c0", "side": ch.choice("wl", [s, o]), "t": ch.choice("wl", [0.0, 0.1, 0.5, 2.0])})
+    for k in range(6):
+        # (the id is only taken once both ends report the old channel closed: several attempts, the first that finds it so)
+        ops.append({"op": "burst", "tag": "c1", "side": s, "count": 2, "size": 100, "kind": "str", "t": ch.choice("wl", [0.05, 0.3, 1.0, 2.0])})
+        ops.append({"op": "reuse", "tag": "c0", "newtag": "n1", "side": s, "t": 0.0})
+        if k == 0 or ch.chance("wl", 0.5):
+            ops.append({"op": "burst", "tag": "n1", "side": s, "count": ch.choice("wl", [3, 6, 10]), "size": ch.choice("wl", [10, 1201]),
+                        "kind": "str", "t": ch.choice("wl", [0.0, 0.0, 0.02, 0.3])})
+    for _ in range(ch.choice("wl", [0, 4, 8])):
+        # (the new channel keeps sending a little while the old life's stragglers come in)
+        ops.append({"op": "burst", "tag": "n1", "side": s, "count": ch.choice("wl", [1, 2]), "size": 10, "kind": "str",
+                    "t": ch.choice("wl", [0.1, 0.5, 1.0, 3.0])})
+    ops.append({"op": "burst", "tag": "n1", "side": o, "count": 3, "size": 10, "kind": "str", "t": 0.1})
+    return ops
+
+
 # ---------------------------------------------------------------------------
 # the world
 # ---------------------------------------------------------------------------
@@ -446,6 +497,11 @@ class World:
         }
         self.dtls["A"].link_out = self.links["A"]
         self.dtls["B"].link_out = self.links["B"]
+        hc = cfg.get("hold_ctl")
+        if hc:
+            ln = self.links[hc["dir"]]
+            ln.classify = lambda data: CHUNK_NAMES.get(data[12], None) if len(data) >= 16 else None
+            ln.hold = {"cls": hc["cls"], "from": hc["from"], "count": hc["count"], "dur": hc["dur"]}
         # sequence-number origins (the random32 seam)
         self.origins = self._origins(cfg)
         for side in "AB":
